@@ -114,7 +114,9 @@ theorem stmtStep_field_defer (reg : Registry) (scope : List Path) (acc acc' : St
   split at h
   · cases h
   · split at h
-    · simp [Res.cast] at h
+    · split at h
+      · cases h
+      · simp [Res.cast] at h
     · exact C14.cast_ne_ok _ _ h
 
 theorem stmts_fold_field_defer (reg : Registry) (scope : List Path) (stmts : List G.Stmt) (st : G.Stmt)
